@@ -274,6 +274,16 @@ def _none_sentinel_ifexp(v: ast.IfExp) -> bool:
     return none_test and (is_none_c(v.body) or is_none_c(v.orelse) or isinstance(t.left, ast.Name))
 
 
+def _classifying_setcomp(c: ast.expr) -> bool:
+    """`{s for s in ids if <test on spaces>}`: a set of nodes chosen by a classification; written as a loop with `add`, it is
+    read by the rules that follow such classifications"""
+    return isinstance(c, ast.SetComp) and len(c.generators) == 1 and bool(c.generators[0].ifs) \
+        and isinstance(c.elt, ast.Name) and isinstance(c.generators[0].target, ast.Name) and c.elt.id == c.generators[0].target.id \
+        and any(isinstance(y, ast.Call) and ((isinstance(y.func, ast.Name) and y.func.id in ("intersect", "is_subspace"))
+                                             or (isinstance(y.func, ast.Attribute) and y.func.attr == "node_is_minimal"))
+                for t in c.generators[0].ifs for y in ast.walk(t))
+
+
 class _DropAnn(ast.NodeTransformer):
     """`x: T = v` inside functions -> `x = v` (annotation kept as `_ann`): annotations of locals have no run-time
     meaning, and rules should not depend on whether a local is annotated."""
@@ -446,7 +456,7 @@ class _DropAnn(ast.NodeTransformer):
         if self.depth > 0 and len(n.targets) == 1 and isinstance(n.targets[0], ast.Name) and isinstance(n.value, ast.Call):
             c = n.value
             conds = [a for a in list(c.args) + [k.value for k in c.keywords] if isinstance(a, ast.IfExp)]
-            if conds and len({ast.unparse(a.test) for a in conds}) == 1 and _pure_flag_expr(conds[0].test) \
+            if conds and len({ast.unparse(a.test) for a in conds}) == 1 and _pure_test(conds[0].test) \
                     and not any(isinstance(y, ast.Name) and y.id == n.targets[0].id for y in ast.walk(conds[0].test)):
                 import copy as _copy
 
@@ -464,7 +474,8 @@ class _DropAnn(ast.NodeTransformer):
                 return new
         # X = {e for a in A for b in B ..}  ->  X = set(); for a in A: for b in B: .. X.add(e)    (several generators)
         if self.depth > 0 and len(n.targets) == 1 and isinstance(n.targets[0], ast.Name) \
-                and isinstance(n.value, (ast.SetComp, ast.ListComp, ast.DictComp)) and len(n.value.generators) >= 2 \
+                and isinstance(n.value, (ast.SetComp, ast.ListComp, ast.DictComp)) \
+                and (len(n.value.generators) >= 2 or _classifying_setcomp(n.value)) \
                 and not any(g.is_async for g in n.value.generators):
             X = n.targets[0].id
             if not any(isinstance(y, ast.Name) and y.id == X for y in ast.walk(n.value)):
@@ -984,7 +995,7 @@ def _merge_complementary_ifs(fn: ast.FunctionDef) -> int:
         i = 0
         while i + 1 < len(body):
             s1, s2 = body[i], body[i + 1]
-            if isinstance(s1, ast.If) and isinstance(s2, ast.If) and s1.orelse and _pure_flag_expr(s1.test) and _pure_flag_expr(s2.test):
+            if isinstance(s1, ast.If) and isinstance(s2, ast.If) and s1.orelse and _pure_test(s1.test) and _pure_test(s2.test):
                 t1, n1 = polar(s1.test)
                 t2, n2 = polar(s2.test)
                 names = {y.id for y in ast.walk(s1.test) if isinstance(y, ast.Name)}
@@ -1276,6 +1287,13 @@ def _pure_flag_expr(e: ast.expr) -> bool:
     if isinstance(e, ast.Compare):
         return all(_pure_operand(x) for x in [e.left] + e.comparators)
     return False
+
+
+def _pure_test(e: ast.expr) -> bool:
+    """a side-effect-free test: a flag expression, or a plain (possibly negated) Boolean local"""
+    while isinstance(e, ast.UnaryOp) and isinstance(e.op, ast.Not):
+        e = e.operand
+    return isinstance(e, ast.Name) or _pure_flag_expr(e)
 
 
 def _pure_operand(e: ast.expr) -> bool:
